@@ -12,7 +12,10 @@ EVID = os.path.join(ROOT, 'evidence') if REPO == '/repo' else os.path.join(WORK,
 NCPU = os.cpu_count() or 4
 
 ALLOWED_AXIOMS = {'propext', 'Classical.choice', 'Quot.sound'}
-FORBIDDEN = re.compile(r'\b(sorry|admit|native_decide|bv_decide|implemented_by|unsafe)\b|^\s*axiom\s|maxHeartbeats\s+0\b')
+# `axiom` / `opaque` as declaration keywords (after attributes and modifiers), `@[extern …]`, `partial def`
+FORBIDDEN = re.compile(r'\b(sorry|admit|native_decide|bv_decide|implemented_by|unsafe)\b'
+                       r'|^\s*(?:@\[[^\]]*\]\s*)*(?:(?:private|protected|noncomputable|nonrec)\s+)*(?:axiom|opaque)\s'
+                       r'|@\[[^\]]*\bextern\b|\bpartial\s+def\b|maxHeartbeats\s+0\b')
 
 GOENV = dict(os.environ, GOFLAGS='-mod=mod', GOPROXY='off', GOSUMDB='off', GOTOOLCHAIN='local',
              CGO_ENABLED=os.environ.get('CGO_ENABLED', '0'))
@@ -242,7 +245,8 @@ def source_theorems(prop):
         src = open(path).read()
         ns = re.search(r'^namespace\s+([\w\.]+)', src, re.M)
         ns = ns.group(1) + '.' if ns else ''
-        res += [ns + n for n in re.findall(r'^theorem\s+(' + prop + r"_[\w\']+)", src, re.M)]
+        # `theorem` possibly preceded by attributes (`@[simp]`, also on the line before) and modifiers (`private`, `protected`, …)
+        res += [ns + n for n in re.findall(r'^\s*(?:@\[[^\]]*\]\s*)*(?:(?:private|protected|nonrec|noncomputable)\s+)*theorem\s+(' + prop + r"_[\w\']+)", src, re.M)]
     return res
 
 
